@@ -106,7 +106,7 @@ def decide(prop, spec, slot_q, tier):
         return decide_smt(prop, spec, tier)
     engine, name = spec["engine"], spec["name"]
     full = PREFIX[engine] + name
-    timeout = spec.get("timeout_t" if tier == "thorough" else "timeout_q", 600 if tier == "quick" else 2700)
+    timeout = spec.get("timeout_t" if tier == "thorough" else "timeout_q", 600 if tier == "quick" else 1500)
     slot = slot_q.get()
     try:
         r = kanirun.run_harness(engine, full, slot, timeout, mem_gb=spec.get("mem_gb", 24),
